@@ -178,7 +178,14 @@ def const_round_concrete(p, m):
     fconst = getattr(libelefun, name)
     cells = dict(zip(fconst.__code__.co_freevars, fconst.__closure__ or ()))
     fixed = cells['fixed'].cell_contents
-    r = fconst(prec, rnd)
-    big = fixed(prec + 200)
-    exact = Fraction(2 * big + 1, 2) / Fraction(2) ** (prec + 200)
-    return O.check_rounded(r, exact, prec, rnd)
+    # the obligation speaks about an arbitrary constant; the real constant exhibits a wrong rounding only at the precisions where
+    # its own guard bits have the offending pattern, so the replay scans the precisions around the model's one and up to 3000 bits
+    scan = [prec] + [q for q in range(1, 3001) if q != prec]
+    ref = fixed(3300)
+    for q in scan:
+        r = fconst(q, rnd)
+        exact = Fraction(2 * ref + 1, 2) / Fraction(2) ** 3300
+        ok, det = O.check_rounded(r, exact, q, rnd)
+        if not ok:
+            return False, '%s(prec=%d, rnd=%r): %s' % (name, q, rnd, det[:300])
+    return None, 'UNCONFIRMED: the wrapper is not correct for every constant (solver model c = %r), but the real %s is rounded correctly at every precision up to 3000 bits' % (m.get('c'), name)
